@@ -3,6 +3,7 @@ import gen_rules, patdiff
 from props.common_pat import blob_tagger, finding_reproduces, replay  # noqa: F401
 
 import enginetie
+from props import c05
 
 CONSTS = ()
 ASSUMPTIONS = ["matched texts begin with `address::` (C07)"]
@@ -19,6 +20,8 @@ def run(ctx, factor):
     n = ctx.budget(200, 5000) * factor
     for _ in range(n):
         doc = gen_rules.rule(g, FEATS, depth=2)
+        if g.chance(0.15):
+            doc = c05.spine_rule(g)        # rules with capture groups: the list still holds whole matches in every mode
         insts = gen_rules.realise(g, doc)
         if g.chance(0.4):
             insts = gen_rules.perturb(g, insts)
